@@ -372,7 +372,7 @@ CASTSF = "snaxc/transforms/realize_memref_casts.py"
 SPACEF = "snaxc/transforms/set_memory_space.py"
 
 CASES["C12"] = [
-    ("copy-in inserted after the use", "mutant", CASTSF, "                copy_op = memref.CopyOp(source_op.source, op.dest)\n                rewriter.insert_op(copy_op, InsertPoint.before(use_op))", "                copy_op = memref.CopyOp(source_op.source, op.dest)\n                rewriter.insert_op(copy_op, InsertPoint.after(use_op))", ["C12.copy-in"]),
+    ("copy-in inserted after the first use", "mutant", CASTSF, "                rewriter.insert_op(copy_op, InsertPoint.before(first_use))", "                rewriter.insert_op(copy_op, InsertPoint.after(first_use))", ["C12.copy-in"]),
     ("copy-out with swapped operands", "mutant", CASTSF, "copy_op = memref.CopyOp(op.dest, source_op.source)", "copy_op = memref.CopyOp(source_op.source, op.dest)", ["C12.copy-out", "C12.copy-in"]),
     ("copy-out searched forwards", "mutant", CASTSF, "for use_op in op.parent.walk(reverse=True):", "for use_op in op.parent.walk(reverse=False):", ["C12.copy-out"]),
     ("copy-out: output = not an input", "mutant", CASTSF, "            if isinstance(use_op, linalg.GenericOp):\n                is_output = op.results[0] in use_op.outputs", "            if isinstance(use_op, linalg.GenericOp):\n                is_output = op.results[0] not in use_op.inputs", ["C12.copy-out"]),
@@ -720,4 +720,8 @@ CASES["C13"] += [
 
 CASES["C12"] += [
     ("reintroduce F-33 (cast re-used where it is not visible)", "mutant", "snaxc/transforms/set_memory_space.py", "@revert:b77f530~1", "", ["C12.l1"]),
+]
+
+CASES["C12"] += [
+    ("reintroduce F-34 (copy-in in front of the first reader)", "mutant", "snaxc/transforms/realize_memref_casts.py", "@revert:e5bf6a4~1", "", ["C12.copy-in"]),
 ]
